@@ -96,6 +96,12 @@ static long long cpuMicros()
     clock_gettime(CLOCK_PROCESS_CPUTIME_ID, &ts);
     return (long long)ts.tv_sec * 1000000ll + ts.tv_nsec / 1000;
 }
+__attribute__((noinline)) static void dirtyStack()   // see parsers.cpp
+{
+    volatile unsigned char pad[192 * 1024];
+    for (size_t i = 0; i < sizeof pad; i += 1) pad[i] = 0xAB;
+    __asm__ volatile("" ::: "memory");
+}
 static void arm(int cpuSec)
 {
     itimerval it {}; it.it_value.tv_sec = cpuSec;
@@ -190,6 +196,7 @@ public:
     }
     void feedDirect(const QDomElement &e)
     {
+        dirtyStack();
         d->stream->handlePacketReceived(e);
         pump(3);
     }
@@ -397,7 +404,7 @@ int main(int argc, char **argv)
 
     std::vector<Work> work;
     auto thoroughOnly = [&](size_t i) { return quick && g_docs[i].id.rfind("t-", 0) == 0; };   // expensive regress documents
-    for (size_t i = 0; i < g_docs.size(); i++) if (!thoroughOnly(i)) work.push_back({ int(i), -1, -1, 0 });
+    for (size_t i = 0; i < g_docs.size(); i++) if (!thoroughOnly(i) && g_docs[i].id.rfind("t-", 0) != 0) work.push_back({ int(i), -1, -1, 0 });   // expensive ones: socket mode only
     for (size_t i = 0; i < g_docs.size(); i++) if (!thoroughOnly(i)) work.push_back({ int(i), -1, -1, 1 });
     for (size_t i = 0; i < g_docs.size(); i++)
         if (i >= g_nRegress && !isTopLevelKind(g_nodes[i])) for (int wr = 1; wr <= WRAPS; wr++) work.push_back({ int(i), -1, -1, 0, wr });
